@@ -90,7 +90,7 @@ def run_worker(cfg, scenarios, workdir, name, timeout=None, binary="worker"):
     open(trace, "w").close()
     # (scenarios that wait in real time - sleep, waitunban, ripen - get that time on top)
     waits = sum(x.get("count", 0) for sc in scenarios for stp in sc.get("steps", []) for x in stp.get("stim", []) if x.get("op") in ("sleep", "waitunban"))
-    waits += 2000 * sum(1 for sc in scenarios for stp in sc.get("steps", []) for x in stp.get("stim", []) if x.get("op") == "ripen")
+    waits += 2000 * sum(1 for sc in scenarios for stp in sc.get("steps", []) for x in stp.get("stim", []) if x.get("op") in ("ripen", "authfile"))
     timeout = timeout or (60 + len(scenarios) // 5 + waits // 1000)
     done = 0
     info = {"crashes": [], "dead": [], "unrealised": 0, "harness_errors": []}
